@@ -225,6 +225,7 @@ func runC15(r *core.Run) {
 	c15PredViews(r)
 	c15Values(r)
 	c15SharedTranspose(r)
+	c15NaN(r)
 }
 
 // c15Sequences: BFS over (mask, softness) states with predicate calls and Harden/Soften.
